@@ -151,6 +151,93 @@ func c06(r *Report, s *Sem) {
 		})
 	}
 
+	R9 := r.Rule("R9", "the terminal state is visible before the teardown may block: in the state setter, every path from entry to the call that stops the receiver and waits for it (through its Once, or directly) first passes the store of the new state — waiting first leaves the channel 'established' and connected, and sends keep succeeding behind the terminal envelope, for as long as the receiver sits in a read", 1)
+	if a.stopFn == nil {
+		r.Undecided(R9, "anchor-unresolved:stop-and-wait routine", "-", "not found")
+	} else {
+		isPublish := func(in ssa.Instruction) bool {
+			switch x := in.(type) {
+			case *ssa.Store:
+				if fa, ok := x.Addr.(*ssa.FieldAddr); ok && structField(fa.X.Type(), fa.Field) == s.stateF {
+					return true
+				}
+			case *ssa.Call:
+				if g := x.Call.StaticCallee(); g != nil && s.stateSetters[g] {
+					return true
+				}
+			}
+			return false
+		}
+		usesStop := func(in ssa.Instruction) bool {
+			c, ok := in.(ssa.CallInstruction)
+			if !ok {
+				return false
+			}
+			if staticCallee(c) == a.stopFn {
+				return true
+			}
+			for _, arg := range c.Common().Args {
+				for _, l := range leaves(arg) {
+					if mc, ok := l.(*ssa.MakeClosure); ok && mc.Fn == ssa.Value(a.stopFn) {
+						return true
+					}
+					if f, ok := l.(*ssa.Function); ok && f == a.stopFn {
+						return true
+					}
+					// bound method closure
+					if mc, ok := l.(*ssa.MakeClosure); ok {
+						if bf, ok := mc.Fn.(*ssa.Function); ok && bf.Synthetic != "" && strings.Contains(bf.Name(), a.stopFn.Name()+"$bound") {
+							return true
+						}
+					}
+				}
+			}
+			return false
+		}
+		n := 0
+		for _, fn := range p.LimeFuncs() {
+			if !typeIs(recvType(topLevel(fn)), s.channelT) || fn == a.stopFn {
+				continue
+			}
+			var sites []ssa.Instruction
+			eachInstr(fn, func(in ssa.Instruction) {
+				if usesStop(in) {
+					sites = append(sites, in)
+				}
+			})
+			if len(sites) == 0 {
+				continue
+			}
+			publishes := false
+			eachInstr(fn, func(in ssa.Instruction) {
+				if isPublish(in) {
+					publishes = true
+				}
+			})
+			if !publishes {
+				continue // a teardown helper that does not set the state (Close etc.) is judged by C13
+			}
+			for _, site := range sites {
+				n++
+				reachedUnpublished := false
+				walkFrom(fn, nil, walkOpts{barrier: func(in ssa.Instruction) bool {
+					if isPublish(in) {
+						return true
+					}
+					if in == site {
+						reachedUnpublished = true
+						return true
+					}
+					return false
+				}})
+				r.Check(R9, "func "+fnName(fn)+" / state stored before the receiver is stopped", p.instrPos(site), !reachedUnpublished, "a path reaches the stop-and-wait call with the previous state still published")
+			}
+		}
+		if n == 0 {
+			r.Undecided(R9, "state setter / stop of the receiver", "-", "no function both publishes the state and stops the receiver")
+		}
+	}
+
 	R7 := r.Rule("R7", "the inbound streams are fed only by the receiver goroutine (R4: it exists only while established), so nothing read during the handshake can surface on them later", 5)
 	checkOnlyReceiverFeedsStreams(r, s, R7)
 
